@@ -49,6 +49,8 @@ struct GateFut { gate: usize, op: usize, obj: usize, tok: usize, done: bool }
 impl std::future::Future for GateFut {
     type Output = usize;
     fn poll(mut self: std::pin::Pin<&mut Self>, cx: &mut std::task::Context<'_>) -> std::task::Poll<usize> {
+        if self.gate == 9998 { cx.waker().wake_by_ref(); }
+        if self.gate == 9997 || self.gate == 9998 { panic!("scenario future panics"); }
         vsched::harness_event("__gate_poll", |_| true);
         if self.gate == 9999 || GATE[self.gate].load(SeqCst) {
             if OCC[self.obj].load(SeqCst) > 0 { OCC[self.obj].fetch_sub(1, SeqCst); }
@@ -93,8 +95,8 @@ fn op_done(op: usize, v: usize) { RES[op].store(v, SeqCst); RET[op].store(now(),
     for k_ in range(nslots): L.insert(1, 'static SLOT_%d: std::sync::Mutex<Option<desync::Desync<Canary>>> = std::sync::Mutex::new(None);' % k_)
     for th in sc['threads']:
         body = []; futvars = {}
-        if th.get('final'):
-            cond = ' && '.join('vsched::thread_finished(rt, "%s")' % c for c in callers) or 'true'
+        if th.get('final') or th.get('after'):
+            cond = ' && '.join('vsched::thread_finished(rt, "%s")' % c for c in (th.get('after') or callers)) or 'true'
             body.append('vsched::harness_event("__await_callers", |rt| %s);' % cond)
         ntask = [0]
         for op in th['ops']:
@@ -107,6 +109,7 @@ fn op_done(op: usize, v: usize) { RES[op].store(v, SeqCst); RET[op].store(now(),
                     if a == 'enter': code.append('enter(%d, %d);' % (q, opid))
                     elif a == 'exit': code.append('exit_(%d, %d);' % (q, opid))
                     elif a == 'yield': code.append('yield_();')
+                    elif a == 'panic': code.append('if true { panic!("scenario job panics"); }')
                     elif a[0] == 'gate': code.append('gate_wait(%d);' % a[1])
                 tok = 40 + opid
                 body.append('op_inv(%d);' % opid)
@@ -117,7 +120,7 @@ fn op_done(op: usize, v: usize) { RES[op].store(v, SeqCst); RET[op].store(now(),
             elif kind == 'open_gate': body.append('open_gate_wake(%d);' % op[1])
             elif kind in ('future_desync', 'future_sync'):
                 q = op[1]; b = op[2] if len(op) > 2 else {}
-                fk = b.get('fut', 'ready'); gate = fk[1] if isinstance(fk, (list, tuple)) else 9999
+                fk = b.get('fut', 'ready'); gate = fk[1] if isinstance(fk, (list, tuple)) else {'panic': 9997, 'wake_panic': 9998}.get(fk, 9999)
                 var = b.get('as', 'f%d' % opid); tok = 40 + opid
                 futvars[var] = (opid, kind)
                 body.append('op_inv(%d);' % opid)
@@ -196,7 +199,7 @@ fn op_done(op: usize, v: usize) { RES[op].store(v, SeqCst); RET[op].store(now(),
     A('    println!("MEM uaf={}", UAF.load(SeqCst));')
     A('    for i in 0..%d { println!("CANARY {} ndrop={} dropbegin={} dropend={} freedat={}", i, NDROP[i].load(SeqCst), DROPBEGIN[i].load(SeqCst) as isize, DROPEND[i].load(SeqCst) as isize, FREEDAT[i].load(SeqCst) as isize); }' % max(1, len(canaries)))
     A('    for i in 0..%d { println!("OP {} nrun={} inv={} ret={} start={} end={} res={} fret={} fres={} nready={} fdropped={} resumed={} cancelled={}", i, NRUN[i].load(SeqCst), INV[i].load(SeqCst) as isize, RET[i].load(SeqCst) as isize, START[i].load(SeqCst) as isize, END[i].load(SeqCst) as isize, RES[i].load(SeqCst) as isize, FRET[i].load(SeqCst) as isize, FRES[i].load(SeqCst) as isize, NREADY[i].load(SeqCst), FDROPPED[i].load(SeqCst) as isize, RESUMED[i].load(SeqCst) as isize, CANCELLED[i].load(SeqCst)); }' % opid)
-    for q in range(nq): A('    println!("QUEUE %d {:?}", q%d);' % (q, q))
+    for q in range(nq): A('    println!("QUEUE %d {}", std::panic::catch_unwind(std::panic::AssertUnwindSafe(|| format!("{:?}", q%d))).unwrap_or("POISONED".to_string()));' % (q, q))
     A('    std::process::exit(0);')
     A('}')
     return '\n'.join(L)
@@ -263,6 +266,27 @@ def judge(spec, viol, rr):
     if oracle == 'panic':
         pan = [n for n, t in rr['threads'].items() if t['panicked']]
         return ('reproduced', 'panicked: %s' % pan) if pan else ('not_reproduced', '')
+    if oracle == 'panic_unexpected':
+        allowed = set(sc.get('expect_panic', []))
+        pan = [n for n, t in rr['threads'].items() if t['panicked'] and n not in allowed and not (n.startswith('P') and 'pool' in allowed)]
+        return ('reproduced', 'panicked: %s' % pan) if pan else ('not_reproduced', '')
+    if oracle == 'panic_contained':
+        bad = []
+        for k, o in ops.items():
+            if not o.get('must_panic'): continue
+            r = rr['ops'][k]
+            if r['nrun'] > 0: bad.append('op%d on the panicked object ran' % k)
+            if r['ret'] >= 0: bad.append('op%d on the panicked object returned normally' % k)
+        sick = set(o['obj'] for o in ops.values() if o.get('panics'))
+        if not unfinished:
+            for k, o in ops.items():
+                if o['obj'] in sick or o['kind'] not in ('desync', 'sync'): continue
+                if rr['ops'][k]['nrun'] != 1: bad.append('op%d on a healthy object nrun=%d' % (k, rr['ops'][k]['nrun']))
+            for q, s in rr['queues'].items():
+                if q in sick:
+                    if 'POISONED' not in s and 'State: Panicked' not in s: bad.append('panicked queue%d is %s' % (q, s))
+                elif 'State: Idle, Pending: 0' not in s: bad.append('healthy queue%d %s' % (q, s))
+        return ('reproduced', '; '.join(bad)) if bad else ('not_reproduced', '')
     if oracle == 'quiescent_complete':
         bad = []
         if unfinished: return 'not_reproduced', 'callers unfinished: %s' % unfinished
@@ -361,7 +385,7 @@ def opinfo(sc):
                     ops[k] = {'kind': op[0][2:], 'obj': 10 + cid, 'thread': th['name'], 'probe': False, 'idx': th['ops'].index(op), 'gated': isinstance(b.get('fut'), (list, tuple))}
                     k += 1; continue
                 ops[k] = {'kind': op[0], 'obj': op[1], 'thread': th['name'], 'probe': b.get('probe'), 'idx': th['ops'].index(op),
-                          'gated': any(isinstance(x, (list, tuple)) and x[0] == 'gate' for x in b.get('acts', [])) or isinstance(b.get('fut'), (list, tuple)) or op[0] == 'suspend'}
+                          'must_panic': bool(b.get('must_panic')), 'panics': ('panic' in b.get('acts', []) or b.get('fut') in ('panic', 'wake_panic')), 'gated': any(isinstance(x, (list, tuple)) and x[0] == 'gate' for x in b.get('acts', [])) or isinstance(b.get('fut'), (list, tuple)) or op[0] == 'suspend'}
                 k += 1
     return ops
 
